@@ -73,4 +73,40 @@ def run (guarded : Bool) : St → List Act → Option St
 def Inv (s : St) : Prop :=
   s.wire ++ s.buf = s.written ∧ ∀ t l, s.snap t = some l → s.lock = some t ∧ l = s.buf
 
+/-! ### why the serving goroutine must not WAIT for the write lock
+
+With the IQ carrier the application's `Flush` holds `writeLock` while it waits for the peer's
+acknowledgement of its data stanza — and that acknowledgement is delivered by the goroutine that
+serves the session, the same one that handles the peer's `<close/>`.  `serveStep tryLock` is one
+step of that goroutine: it takes the next stanza of the peer from its inbox, or — if it is parked
+on the write lock — does nothing until the lock is free. -/
+
+inductive Stanza | close | ack
+  deriving DecidableEq, Repr
+
+structure DS where
+  appInFlush : Bool := true     -- the application holds writeLock and waits for the acknowledgement
+  inbox : List Stanza := []     -- sent by the peer, not handled yet (in order)
+  serveParked : Bool := false   -- the serving goroutine waits for writeLock
+  closeAnswered : Bool := false
+  appReturned : Bool := false
+  deriving DecidableEq, Repr
+
+/-- `none`: the serving goroutine cannot move -/
+def serveStep (tryLock : Bool) (s : DS) : Option DS :=
+  if s.serveParked then
+    if s.appInFlush then none else some { s with serveParked := false, closeAnswered := true }
+  else match s.inbox with
+    | [] => none
+    | .ack :: rest => some { s with inbox := rest, appInFlush := false, appReturned := true }
+    | .close :: rest =>
+      if s.appInFlush && !tryLock then some { s with inbox := rest, serveParked := true }
+      else some { s with inbox := rest, closeAnswered := true }
+
+def serveRun (tryLock : Bool) : Nat → DS → DS
+  | 0, s => s
+  | n + 1, s => match serveStep tryLock s with
+    | some s' => serveRun tryLock n s'
+    | none => s
+
 end XmppModel.IbbWriteSide
